@@ -11,6 +11,7 @@ lines), 1 at least one VIOLATION, 2 the machinery itself failed (tool crash, tim
 negative control accepted, unreproduced lead).  A machinery failure is never reported as a violation.
 """
 import json
+import atexit
 import os
 import re
 import shutil
@@ -78,7 +79,11 @@ def _modfile():
 
 def build_harness(race=False):
     """Builds harness/cmd/vh against the repository's current working tree. Returns the binary."""
-    out = os.path.join(BUILD, "vh-race" if race else "vh")
+    # one binary per check process: checks of several properties, or against several trees (VERIF_REPO), may
+    # run at the same time
+    tag = re.sub(r"[^A-Za-z0-9]+", "_", REPO)
+    out = os.path.join(BUILD, "%s.%s.%d" % ("vh-race" if race else "vh", tag, os.getpid()))
+    atexit.register(lambda: os.path.exists(out) and os.remove(out))
     cmd = ["go", "build", "-modfile", _modfile(), "-tags", "verif", "-o", out]
     if race:
         cmd.append("-race")
